@@ -1168,13 +1168,15 @@ where
         }
         let mut safe = self.safe.write().await;
         if let None = safe.active_blob {
-            let blob_opt = safe.blobs.write().await.pop();
-            if let Some(mut blob) = blob_opt {
-                // Active blob accepts appends only with its index in memory
-                if let Err(e) = blob.load_index().await {
-                    safe.blobs.write().await.push(blob).await;
-                    return Err(e);
-                }
+            let mut blobs = safe.blobs.write().await;
+            // Active blob accepts appends only with its index in memory. The index is loaded while the blob
+            // is still among the closed ones: on error, or if this future is dropped, it simply stays there
+            if let Some(blob) = blobs.last_id().and_then(|id| blobs.get_child_mut(id)) {
+                blob.data.load_index().await?;
+            }
+            let blob_opt = blobs.pop();
+            drop(blobs);
+            if let Some(blob) = blob_opt {
                 #[cfg(pearl_verif)]
                 crate::verif::event("active_restored", &[("blob", blob.id() as u64)], None);
                 safe.active_blob = Some(Box::new(ASRwLock::new(blob)));
